@@ -96,6 +96,7 @@ class Machine:
         self.trace = []         # external calls in order
         self.assumptions = set()
         self._ginit = set()
+        self.atom_dec = {}
 
     # ------------------------------------------------------------ memory
     def alloc(self, name, size=0):
@@ -226,7 +227,27 @@ class Machine:
 
     # ------------------------------------------------------------- branch
     def decide(self, info):
-        """an undecidable boolean: take the next recorded decision or fork."""
+        """an undecidable boolean: take the next recorded decision or fork.
+        Composite conditions (not/and/or/xor of atoms) are decided atom by
+        atom; the same atom is decided once per path."""
+        if isinstance(info, tuple) and info and info[0] == "not":
+            return not self.decide(info[1])
+        if isinstance(info, tuple) and info and info[0] in ("and", "or", "xor"):
+            a = self.decide(info[1])
+            if info[0] == "and" and not a:
+                return False
+            if info[0] == "or" and a:
+                return True
+            b = self.decide(info[2])
+            return {"and": a and b, "or": a or b, "xor": a != b}[info[0]]
+        k = repr(info)
+        if k in self.atom_dec:
+            return self.atom_dec[k]
+        d = self._decide_atom(info)
+        self.atom_dec[k] = d
+        return d
+
+    def _decide_atom(self, info):
         if self.dpos < len(self.decisions):
             d = self.decisions[self.dpos]
             self.dpos += 1
@@ -530,6 +551,20 @@ class Machine:
         raise Unsupported(op)
 
     def dom_intop(self, op, a, b, bits):
+        def isc(x):
+            return isinstance(x, tuple) and x and x[0] == "cond"
+        if bits == 1 or isc(a) or isc(b):
+            if op in ("and", "or", "xor") and (isc(a) or isc(b)):
+                if isinstance(a, int):
+                    a, b = b, a
+                if isinstance(b, int):
+                    b &= 1
+                    if op == "xor":
+                        return ("cond", ("not", a[1])) if b else a
+                    if op == "and":
+                        return a if b else 0
+                    return 1 if b else a
+                return ("cond", (op, a[1], b[1]))
         raise Unsupported("integer op %s on abstract values" % op)
 
     def do_call(self, env, ins, fname):
@@ -577,6 +612,8 @@ def explore(m, fname, make_args, max_paths=64):
         args = make_args(m)
         try:
             r = m.call(fname, args)
+            if isinstance(r, tuple) and r and r[0] == "cond":
+                r = int(m.decide(r[1]))
         except Fork:
             todo.append(dec + [True])
             todo.append(dec + [False])
